@@ -639,7 +639,11 @@ fn oracle_strategy(_r: &Req, out: &str) -> Result<(), String> {
 }
 
 /// the second `solve()` on the same object: observer self-check, plus "the same solver solved
-/// twice gives the same answer" (C05) stated on the implementation's own two runs
+/// twice gives the same answer" (C05) stated on the implementation's own two runs.  No exemption is
+/// left (`C05.ns_solve_idempotent_any_start`: every mutable buffer of the solver object, the cone
+/// states and — since /repo 7c1c881 — the iterate after a failed initial KKT solve included, is dead):
+/// whatever the status and the figures of the first solve, rollbacks and strategy switches included,
+/// the second one reproduces it bit for bit.
 fn oracle_twice(r: &Req, out: &str) -> Result<(), String> {
     oracle_observer(r, out)?;
     if out.starts_with("panic") || out.starts_with("err") {
@@ -647,25 +651,20 @@ fn oracle_twice(r: &Req, out: &str) -> Result<(), String> {
     }
     let o = Req::parse(&format!("o {}", out)).ok_or("unparsable response")?;
     let (st1, st2) = (o.u("status1"), o.u("status"));
-    let finite = |k: &str| o.fs(k).iter().all(|v| v.is_finite());
-    let all_finite = ["x", "s", "z", "x1", "s1", "z1"].iter().all(|k| finite(k));
-    // claimed for first solves that reached a verdict with finite figures; a rollback reads
-    // `prev_vars`, which the strategy switches may have left as the first solve wrote it
-    let verdict = matches!(st1, 1..=8);
-    if !(verdict && all_finite) || o.u("rb") == 1 {
-        return Ok(());
-    }
     if st1 != st2 {
         return Err(format!("second solve on the same solver ends with status {} (first: {})", st2, st1));
     }
     if o.u("iterations1") != o.u("iterations") {
         return Err(format!("second solve takes {} iterations (first: {})", o.u("iterations"), o.u("iterations1")));
     }
+    // bit for bit (signed zeros included; NaN = NaN)
     for (a, b) in [("x1", "x"), ("s1", "s"), ("z1", "z")] {
-        let (u, v) = (o.fs(a), o.fs(b));
-        if u.len() != v.len() || u.iter().zip(v.iter()).any(|(p, q)| p != q) {
+        if !bits_eq(&o.fs(a), &o.fs(b)) {
             return Err(format!("second solve on the same solver returns a different {}", b));
         }
+    }
+    if o.u("same") != 1 {
+        return Err("second solve on the same solver returns different objective / residual figures".into());
     }
     Ok(())
 }
@@ -1247,7 +1246,7 @@ fn channels() -> Vec<Channel> {
             oracle: Some(oracle_twice),
             modelled: true,
             rust_fn: "DefaultSolver::new + IPSolver::solve twice on the same object, nonsymmetric cones (second trajectory) + DefaultSolution",
-            lean: "SolverNS.Solver.solve ∘ SolverNS.Solver.solve",
+            lean: "SolverNS.Solver.solve ∘ SolverNS.Solver.solve / C05.ns_solve_idempotent_any_start",
         },
     ]
 }
